@@ -582,7 +582,9 @@ def cconnect_cases(ctx, w):
     adv_combos = [(k, where, pol, port, adv) for adv in ADVERTISE if adv for k in KNOWN for where in ("user", "system")
                   for pol in POLICIES for port in (22, 2222)]
     if ctx.thorough:
-        combos += [c for c in adv_combos if c[4] == "gss"] + ctx.rng.sample(
+        g = [c for c in adv_combos if c[4] == "gss"]
+        gm = [c for c in g if c[0] in MISMATCH or c[0] == "none"]          # every mismatch / unknown-host case
+        combos += gm + ctx.rng.sample([c for c in g if c not in gm], 40) + ctx.rng.sample(
             [c for c in adv_combos if c[4] != "gss"], 40)
     else:
         combos_adv = [c for c in adv_combos if c[1] == "user" and c[3] == 22 and
@@ -793,7 +795,7 @@ def run(ctx):
                 "(quick: seeded 60 % sample) or after the handshake, or signing other data; Transport.connect over "
                 "hostkey argument {none, same, other same type, other types} x bad signature x credential; "
                 "SSHClient.connect(sock=), through password= and through auth_strategy=, host names in lower and mixed case, over 10 known_hosts contents x {user, system} x 5 policies x {22, 2222} "
-                "(quick: all Reject/AutoAdd user cases, every stored-key mismatch x accepting policy, + 24 sampled + 14 with a server advertising gss-X / unknown kex names; thorough: all 180, all 180 again with a gss-advertising server, 40 with an unknown name).  Every case is a distinct "
+                "(quick: all Reject/AutoAdd user cases, every stored-key mismatch x accepting policy, + 24 sampled + 14 with a server advertising gss-X / unknown kex names; thorough: the whole grid, every mismatch / unknown-host case again with a gss-advertising server + 40 sampled others, 40 with an unknown name, and the whole user-store grid through auth_strategy= and with a mixed-case host name).  Every case is a distinct "
                 "script and reaches the guard / gating / comparison code, hence non-trivial.")
     ctx.trusted += ["model coq/Model/C17.v is hand-written; tied to transport.py / client.py / auth_handler.py by "
                     "gen/c17.py (AST ordering checks, fail-closed) and this scripted differential run",
